@@ -61,8 +61,8 @@ class StoreEngine(Engine):
             for f in o.get('fired', []):
                 k = f[0] if f[0] != 'runfault' else 'run_' + f[2]
                 fired[k] = fired.get(k, 0) + 1
-                if f[0] == 'diskerr' and len(f) > 1 and f[1] in ('write', 'ropen'):
-                    k2 = 'diskerr_' + ('short_write' if f[1] == 'write' else 'read')
+                if f[0] == 'diskerr' and len(f) > 1 and f[1] in ('write', 'ropen', 'close'):
+                    k2 = 'diskerr_' + {'write': 'short_write', 'ropen': 'read', 'close': 'at_close'}[f[1]]
                     fired[k2] = fired.get(k2, 0) + 1
         stats = dict(j.stats)
         stats['fired'] = fired
